@@ -207,6 +207,7 @@ type Sim struct {
 
 	conns    []*Conn
 	netParks map[string]int
+	OnLoopEnd func() // called when the scheduler loop has ended, before the unwinding
 	Unwind   func() // called when the incarnation is turned into a zombie
 	NoYield  bool
 	tickW    int
@@ -335,6 +336,9 @@ func RunBubble(w *World, setup func(s *Sim)) (s *Sim) {
 			s.FinalParks = map[string]string{}
 			for _, p := range s.parked {
 				s.FinalParks[p.g] = pkNames[p.kind] + "@" + p.label
+			}
+			if s.OnLoopEnd != nil {
+				s.OnLoopEnd()
 			}
 			s.unwind()
 			verifsim.Hook = nil
